@@ -107,7 +107,8 @@ WHITELIST = [
      "self.node (apply_proc's result) is in the other branch of the same if"),
     ("rewrite/LoopIR_scheduling.py", r"CheckFoldBuffer\.update_access_window(_within_s)?", r"\|= (bounds|new_bounds)",
      "the operands are IndexRange objects (annotated parameter type); IndexRange defines __or__ but no __ior__ "
-     "(no class under src/exo defines __ior__, checked on this run), so `|=` builds a new object and rebinds"),
+     "(no class under src/exo defines __ior__, checked on this run), so `|=` builds a new object and rebinds",
+     None, "no_ior"),
     ("core/LoopIR.py", r"LoopIR_Dependencies\..*", r"(self\._depends\[.*\]\.(add|update)\(|^depends\.update\(d\))",
      "an element of self._depends, the defaultdict(set) built in __init__ of this visitor: its values are only ever "
      "the sets made by its default factory"),
@@ -122,7 +123,8 @@ def wl_rules():
     global WL_RULES
     if WL_RULES is None:
         import re
-        WL_RULES = [(r[0], re.compile(r[1]), re.compile(r[2]), r[3], (r[4] if len(r) > 4 else None)) for r in WHITELIST]
+        WL_RULES = [(r[0], re.compile(r[1]), re.compile(r[2]), r[3], (r[4] if len(r) > 4 else None),
+                     (r[5] if len(r) > 5 else None)) for r in WHITELIST]
     return WL_RULES
 
 
@@ -775,8 +777,10 @@ class FuncBuilder:
         text = text or norm(site_node)
         line = getattr(site_node, "lineno", self.func.line)
         reason, finding = None, None
-        for ri, (wf, wfunc, wsite, wreason, wfinding) in enumerate(wl_rules()):
+        for ri, (wf, wfunc, wsite, wreason, wfinding, wcheck) in enumerate(wl_rules()):
             if wf == self.m.rel and wfunc.fullmatch(self.func.name) and wsite.search(text):
+                if wcheck == "no_ior" and self.tr.defines_dunder("__ior__"):
+                    continue     # the stated reason does not hold on this tree: the site stays a mutation
                 reason, finding = wreason, wfinding
                 self.tr.used_wl.add(ri)
                 break
@@ -1168,7 +1172,14 @@ class FuncBuilder:
         elif isinstance(st, (ast.Pass, ast.Break, ast.Continue, ast.Global, ast.Nonlocal)):
             pass
         else:
-            raise NotImplementedError(type(st).__name__)
+            # a statement kind this translator does not know: every name it could bind becomes unknown
+            self.skip(st, f"unsupported statement kind {type(st).__name__}: names bound as unknown")
+            for n in ast.walk(st):
+                if isinstance(n, ast.Name) and isinstance(n.ctx, ast.Store):
+                    r = self.resolve(n.id)
+                    if r[0] == "var":
+                        out.append(("bind", getattr(st, "lineno", self.func.line), r[1], ("unknown",)))
+            out.append(("multi",))
         return out
 
     def compound_stmts(self, st, out):
@@ -1213,7 +1224,10 @@ class FuncBuilder:
                 for x in c.body:
                     self.any_stmt(x, out)
         else:
-            raise NotImplementedError(type(st).__name__)
+            self.skip(st, f"unsupported compound statement {type(st).__name__}")
+            for x in ast.iter_child_nodes(st):
+                if isinstance(x, ast.stmt):
+                    self.any_stmt(x, out)
 
     COMPOUND = (ast.If, ast.While, ast.For, ast.AsyncFor, ast.With, ast.AsyncWith, ast.Try, ast.Match)
 
